@@ -9,3 +9,7 @@ package yreflect
 
 //@ func OrderedMapKeys
 //@ pure
+
+// MethodByName wraps reflect's method lookup (valid-and-non-zero check): a function of the value and the name.
+//@ func MethodByName
+//@ pure
